@@ -21,6 +21,14 @@ def more():
     for pid, gen in (("C04", ()), ("C12", ()), ("C13", ()), ("C15", ("Modes", "Decorators")), ("C16", ())):
         reg[pid] = dict(family=fam_io.Family(pid), lean=[f"TinyFlux.Props.{pid}"], gen=gen, ref=f"5/{pid}",
                         replay=fam_io.replay)
+    import fam_c14
+
+    reg["C14"] = dict(family=fam_c14.Family(), lean=["TinyFlux.Props.C14"], gen=("Validators",), ref="5/C14",
+                      replay=fam_c14.replay)
+    import fam_c08
+
+    reg["C08"] = dict(family=fam_c08.Family(), lean=["TinyFlux.Props.C08"], gen=("Utils", "Codec"), ref="5/C08",
+                      replay=fam_c08.replay)
     reg["C05"] = dict(family=fam_c05.Family(), lean=["TinyFlux.Props.C05"], gen=("Codec",), ref="5/C05",
                       replay=fam_c05.replay)
     return reg
